@@ -321,8 +321,25 @@ struct Cc:
   10 [+4]  Int  i32
   14 [+8]  UInt  u64
   22 [+8]  Int  i64
+enum Small:
+  [maximum_bits: 8]
+  SA = 1
+enum SSmall:
+  [maximum_bits: 8]
+  [is_signed: true]
+  SB = -1
+enum Big:
+  BA = 1
+enum SBig:
+  [is_signed: true]
+  BB = -1
+struct En:
+  0 [+1]  Small  es
+  1 [+1]  SSmall  ss
+  2 [+8]  Big  eb
+  10 [+8]  SBig  sb
 '''
-MALFORMED_NUM = ["", "-", "0x", "0b", "-0x", "0b2", "12a", "0xg", "_1", "256", "-1", "1e3", "0x100", "--1", "+1", "1.0", " ", "0b100000000",
+MALFORMED_NUM = ["0x_", "0b_", "0x__", "0X_", "0B_", "_", "__", "", "-", "0x", "0b", "-0x", "0b2", "12a", "0xg", "_1", "256", "-1", "1e3", "0x100", "--1", "+1", "1.0", " ", "0b100000000",
                  "99999999999999999999999999999999999999999", "0o7", "true", "- 1", "1-", "0x-1", "１", "0b", "x", "0xx1"]
 
 CODEC_DRV = r'''
@@ -385,6 +402,21 @@ int main() {
   OUTSIDE(u64, "18446744073709551616") OUTSIDE(u64, "18446744073709551619") OUTSIDE(u64, "18446744073709551625") OUTSIDE(u64, "0x10000000000000000") OUTSIDE(u64, "0x1000000000000000f")
   OUTSIDE(i64, "9223372036854775808") OUTSIDE(i64, "9223372036854775809") OUTSIDE(i64, "9223372036854775817") OUTSIDE(i64, "0x8000000000000000") OUTSIDE(i64, "0x800000000000000f")
   OUTSIDE(i64, "-9223372036854775809") OUTSIDE(i64, "-9223372036854775817") OUTSIDE(i64, "-0x8000000000000001") OUTSIDE(i64, "-0x800000000000000f")
+  // separators only, after a sign
+  OUTSIDE(i8, "-_") OUTSIDE(i8, "-0x_") OUTSIDE(i8, "-0b__") OUTSIDE(i16, "-_") OUTSIDE(i64, "-0x_")
+  // numbers outside an enum's underlying type must not wrap into it
+#define OUTSIDE_E(FIELD, TEXT) { unsigned char z[18]; std::memset(z, 0x5A, 18); auto zv = G::MakeEnView(z, 18); ++g_n; \
+    if (::emboss::UpdateFromText(zv.FIELD(), std::string(TEXT))) vio("out-of-range-accepted", #FIELD, 0, TEXT); \
+    for (int k = 0; k < 18; ++k) if (z[k] != 0x5A) { vio("malformed-changed-destination", #FIELD, k, TEXT); break; } }
+#define INSIDE_E(FIELD, TEXT, WANT) { unsigned char z[18]; std::memset(z, 0x5A, 18); auto zv = G::MakeEnView(z, 18); ++g_n; \
+    if (!::emboss::UpdateFromText(zv.FIELD(), std::string(TEXT))) vio("decode-failed", #FIELD, 0, TEXT); \
+    else if ((long long)zv.FIELD().Read() != (long long)(WANT)) vio("decode-wrong", #FIELD, (long long)zv.FIELD().Read(), TEXT); }
+  OUTSIDE_E(es, "256") OUTSIDE_E(es, "257") OUTSIDE_E(es, "300") OUTSIDE_E(es, "0x100") OUTSIDE_E(es, "-1") OUTSIDE_E(es, "-255") OUTSIDE_E(es, "0x100000001") OUTSIDE_E(es, "18446744073709551615")
+  OUTSIDE_E(ss, "128") OUTSIDE_E(ss, "-129") OUTSIDE_E(ss, "255") OUTSIDE_E(ss, "4294967295") OUTSIDE_E(ss, "18446744073709551615") OUTSIDE_E(ss, "-9223372036854775808")
+  OUTSIDE_E(eb, "-1") OUTSIDE_E(eb, "-9223372036854775808") OUTSIDE_E(eb, "18446744073709551616")
+  OUTSIDE_E(sb, "9223372036854775808") OUTSIDE_E(sb, "18446744073709551615") OUTSIDE_E(sb, "-9223372036854775809")
+  INSIDE_E(es, "255", 255) INSIDE_E(es, "0", 0) INSIDE_E(es, "SA", 1) INSIDE_E(eb, "18446744073709551615", -1) INSIDE_E(eb, "BA", 1)
+  INSIDE_E(sb, "-9223372036854775808", (-9223372036854775807LL - 1)) INSIDE_E(sb, "9223372036854775807", 9223372036854775807LL) INSIDE_E(sb, "BB", -1)
   OUTSIDE(u8, "0x100") OUTSIDE(u8, "0b100000000") OUTSIDE(i8, "128") OUTSIDE(i8, "-129") OUTSIDE(i8, "0x80") OUTSIDE(i8, "-0x81") OUTSIDE(u16, "65540") OUTSIDE(i16, "-32770")
   std::printf("SUMMARY n=%llu viol=%llu\n", g_n, g_viol);
   return 0;
